@@ -208,9 +208,8 @@ def load(modules=DEFAULT_MODULES, extra_facades=None, extra_globals=None, warm=(
 def activate():
     """facade-bound evo modules + facades visible in sys.modules (for lazy
     imports inside evo functions)"""
-    facades = SYM.get("__facades__", {})
     saved = {}
-    for k, v in list(SYM.items()) + list(facades.items()):
+    for k, v in list(SYM.items()):
         if k.startswith("__"):
             continue
         saved[k] = sys.modules.get(k)
